@@ -199,3 +199,94 @@ func binaryBulksCase(conc, rounds int, seed int64, orc *vh.Oracle, rep *vh.Repor
 				rounds, conc, len(bad), len(st.problems), len(sent), missing, dup, foreign, first), Replay: []string{line}})
 	}
 }
+
+// binarySizeCase (thorough): the real binary with --max-document-size=limit; bulks [small, n bytes, small] for n
+// around the limit and around 16 KiB.
+func binarySizeCase(limit int, orc *vh.Oracle, rep *vh.Report) {
+	line := fmt.Sprintf("binsize %d", limit)
+	repo := os.Getenv("VERIF_REPO")
+	if repo == "" {
+		repo = "/repo"
+	}
+	dir, err := os.MkdirTemp("", "vh-c10-bin")
+	if err != nil {
+		orc.Error = err.Error()
+		return
+	}
+	defer os.RemoveAll(dir)
+	bin := filepath.Join(dir, "seq-db")
+	build := exec.Command("go", "build", "-o", bin, "./cmd/seq-db")
+	build.Dir = repo
+	build.Env = append(os.Environ(), "GOFLAGS=-mod=mod", "GOPROXY=off")
+	if b, err := build.CombinedOutput(); err != nil {
+		orc.Error = "building cmd/seq-db: " + string(b)
+		return
+	}
+	lis, err := net.Listen("tcp", "127.0.0.1:0")
+	if err != nil {
+		orc.Error = err.Error()
+		return
+	}
+	st := &decodingStore{docs: map[string]int{}}
+	srv := grpc.NewServer(grpc.MaxRecvMsgSize(256 << 20))
+	storeapi.RegisterStoreApiServer(srv, st)
+	go func() { _ = srv.Serve(lis) }()
+	defer srv.Stop()
+	httpAddr, grpcAddr, dbgAddr := freeAddr(), freeAddr(), freeAddr()
+	ctx, cancel := context.WithTimeout(context.Background(), 2*time.Minute)
+	defer cancel()
+	cmd := exec.CommandContext(ctx, bin, "--mode=proxy", "--mapping=auto", "--addr="+httpAddr, "--proxy-grpc-addr="+grpcAddr, "--debug-addr="+dbgAddr,
+		"--hot-stores="+lis.Addr().String(), "--replicas=1", "--bulk-shard-timeout=30s", fmt.Sprintf("--max-document-size=%dB", limit))
+	var logb bytes.Buffer
+	cmd.Stdout, cmd.Stderr = &logb, &logb
+	if err := cmd.Start(); err != nil {
+		orc.Error = "start: " + err.Error()
+		return
+	}
+	defer func() {
+		cmd.Process.Kill()
+		cmd.Wait()
+	}()
+	post := func(body string) (int, error) {
+		resp, err := http.Post("http://"+httpAddr+"/_bulk", "application/json", strings.NewReader(body))
+		if err != nil {
+			return 0, err
+		}
+		resp.Body.Close()
+		return resp.StatusCode, nil
+	}
+	up := false
+	for i := 0; i < 150 && !up; i++ {
+		if _, err := post("{\"index\":{}}\n{\"k\":\"warmup\"}\n"); err == nil {
+			up = true
+		} else {
+			time.Sleep(100 * time.Millisecond)
+		}
+	}
+	if !up {
+		tail := logb.String()
+		if len(tail) > 500 {
+			tail = tail[len(tail)-500:]
+		}
+		orc.Error = "the proxy did not come up: " + tail
+		return
+	}
+	head := `{"k":"mid","p":"`
+	var wrong []string
+	for _, n := range []int{limit - 1, limit, limit + 1, 2 * limit, 16<<10 - 1} {
+		mid := head + strings.Repeat("y", n-len(head)-2) + `"}`
+		code, err := post("{\"index\":{}}\n{\"k\":\"b" + fmt.Sprint(n) + "\"}\n{\"index\":{}}\n" + mid + "\n{\"index\":{}}\n{\"k\":\"a" + fmt.Sprint(n) + "\"}\n")
+		st.mu.Lock()
+		stored := st.docs[mid] > 0
+		st.mu.Unlock()
+		inLimit := n+1 <= bufSize(limit)
+		if err != nil || code != 200 || stored != inLimit {
+			wrong = append(wrong, fmt.Sprintf("%d bytes: status %d, stored=%v, within the limit=%v", n, code, stored, inLimit))
+		}
+	}
+	orc.Case(line, true, "real-binary")
+	if len(wrong) > 0 {
+		violate(rep, vh.Violation{Site: "proxyapi/ingestor.go:NewIngestor", Class: "configured-size-limit-not-effective",
+			What: fmt.Sprintf("real seq-db binary with --max-document-size=%dB: %s", limit, strings.Join(wrong, "; ")), Replay: []string{line}})
+	}
+}
